@@ -53,18 +53,10 @@ def dec_tokctx(p, res):
                 res.ok()
     res.samples.append('27 contexts x %d characters x 3 predicates' % (5 + len(optypes)))
     # the tokenizer tries the repeater alternative under the same context test the literal scanner uses
-    rp = p.func('abbreviation.tokenizer.repeater')
-    if 'is_allowed_repeater(scanner.peek(), ctx) and scanner.eat(Chars.Asterisk)' in src_of(rp.node):
-        res.ok('repeater() consults is_allowed_repeater before eating *')
-    else:
-        res.bad(F('DEC-TOKCTX', rp, rp.node, 'guard of repeater()', 'the repeater alternative must be tried only where is_allowed_repeater allows it (literal() stops at `*` under the same test)'))
-    lt = p.func('abbreviation.tokenizer.literal')
-    s = src_of(lt.node)
-    for w in ("ch == ctx['quote'] or ch == Chars.Dollar or is_allowed_operator(ch, ctx)", 'is_allowed_space(ch, ctx) or is_allowed_repeater(ch, ctx) or is_quote(ch) or bracket_type(ch)'):
-        if w in s:
-            res.ok('literal(): stops at ' + w)
-        else:
-            res.bad(F('DEC-TOKCTX', lt, lt.node, w, 'stop conditions of the literal scanner changed'))
+    from .tablecheck import check_table
+    check_table(p, res, 'DEC-TOKCTX', 'abbreviation.tokenizer.repeater', 'the repeater alternative must be tried only where is_allowed_repeater allows it (literal() stops at `*` under the same test)')
+    check_table(p, res, 'DEC-TOKCTX', 'abbreviation.tokenizer.literal', 'stop conditions of the literal scanner: the active quote, $, allowed operators, allowed space / repeater, quotes and brackets outside text')
+    check_table(p, res, 'DEC-TOKCTX', 'abbreviation.tokenizer.tokenize', 'quote and bracket context is updated for every token; anything unknown raises at its position')
     res.require_floor(500)
 
 
